@@ -24,10 +24,13 @@ theorem queued_ping_is_not_doubled (e : Engine) (np : Nat) (s : Settings) (hp : 
   simp [Engine.serviceKeepAlive, Engine.queuePing, hp, hn, hdue, hq, hs, hk]
 
 /-- **The PINGRESP deadline is armed when the PINGREQ has been completely written**: `min(ping timeout, K/2)` from that
-    moment - a PINGREQ that had to wait behind a large operation does not use up the server's time to answer. -/
+    moment - a PINGREQ that had to wait behind a large operation does not use up the server's time to answer - and the next
+    ping is due K seconds after that moment, so never before the deadline (the engine does not ask for service it has no use
+    for while the PINGRESP is awaited). -/
 theorem ping_deadline_runs_from_transmission (e : Engine) (id : Nat) (o : Op) (s : Settings)
     (hc : e.current = some id) (ho : e.op? id = some o) (hp : o.packet = .pingreq) (hs : e.settings = some s) :
     ∃ e', e.onFullyWritten = some e' ∧ e'.pingDeadline = some (e.now + min e.cfg.pingTimeout (s.serverKeepAlive * 500)) ∧
+      (s.serverKeepAlive > 0 → e'.nextPing = some (e.now + s.serverKeepAlive * 1000)) ∧
       id ∈ e'.pendingWC := by
   have hset : ((((e.fileWritten id o).setOp { o with pingBase := some e.now }).startAckTimeout id).settings) = some s := by
     unfold Engine.startAckTimeout
@@ -43,11 +46,12 @@ theorem ping_deadline_runs_from_transmission (e : Engine) (id : Nat) (o : Op) (s
     split <;> simp [Engine.setOp, Engine.fileWritten, hp]
   simp only [Engine.onFullyWritten, hc, ho]
   generalize ((e.fileWritten id o).setOp { o with pingBase := some e.now }).startAckTimeout id = e3 at hset hnow hcfg hwc ⊢
-  have harm : e3.armPingDeadline o = { e3 with pingDeadline := some (e3.now + min e3.cfg.pingTimeout (s.serverKeepAlive * 500)) } := by
+  have harm : e3.armPingDeadline o = { e3 with pingDeadline := some (e3.now + min e3.cfg.pingTimeout (s.serverKeepAlive * 500)), nextPing := if s.serverKeepAlive > 0 then some (e3.now + s.serverKeepAlive * 1000) else e3.nextPing } := by
     unfold Engine.armPingDeadline
     rw [hp, hset]
-  refine ⟨_, rfl, ?_, ?_⟩
+  refine ⟨_, rfl, ?_, ?_, ?_⟩
   · rw [harm, hnow, hcfg]
+  · intro hk; rw [harm]; simp only [hk, ↓reduceIte, hnow]
   · rw [harm]; exact hwc
 
 /-- nothing but a PINGREQ arms the deadline -/
